@@ -39,6 +39,9 @@ theorem st_setv (s : St) (v w : Nat) (x : VS) : (s.setv v x).st w = if v = w the
 @[simp] theorem vst_setv (s : St) (v : Nat) (x : VS) : (s.setv v x).vst = s.vst := rfl
 @[simp] theorem codeV_setv (s : St) (v : Nat) (x : VS) : (s.setv v x).codeV = s.codeV := rfl
 @[simp] theorem early_setv (s : St) (v : Nat) (x : VS) : (s.setv v x).early = s.early := rfl
+@[simp] theorem errSeen_setv (s : St) (v : Nat) (x : VS) : (s.setv v x).errSeen = s.errSeen := rfl
+@[simp] theorem reset_setv (s : St) (v : Nat) (x : VS) : (s.setv v x).reset = s.reset := rfl
+@[simp] theorem late_setv (s : St) (v : Nat) (x : VS) : (s.setv v x).late = s.late := rfl
 
 theorem getAt_of_all (p : VS → Bool) (hp : p .unk = true) (l : List VS) (h : l.all p = true) :
     ∀ v, p (getAt .unk l v) = true := by
@@ -614,6 +617,88 @@ theorem verifyFirst_of_fold (d : Nat) (tr : List Ev)
     have : (pre.foldl St.apply St.init).va.st = .passed := this
     rw [hva] at this
     exact this
+
+/-! #### C09: a recorded error is never overwritten, nothing is written after it -/
+
+def IsErrMark (e : Ev) : Prop := e = .code .bad ∨ e = .test .bad
+def IsAfterErrBad (e : Ev) : Prop :=
+  e = .code .ok ∨ e = .code .unk ∨ e = .vcall true ∨ ∃ d, e = .wr d
+
+theorem errSeen_step {s : St} (e : Ev) (h : s.errSeen = true) : (s.apply e).errSeen = true := by
+  cases e <;> simp [St.apply, h]
+  all_goals (first | split <;> simp_all | skip)
+
+theorem reset_step {s : St} (e : Ev) (h : s.reset = true) : (s.apply e).reset = true := by
+  cases e <;> simp [St.apply, h]
+  all_goals (first | split <;> simp_all | skip)
+
+theorem late_step {s : St} (e : Ev) (h : s.late = true) : (s.apply e).late = true := by
+  cases e <;> simp [St.apply, h]
+  all_goals (first | split <;> simp_all | skip)
+
+theorem reset_fold (tr : List Ev) : ∀ s : St, s.reset = true → (tr.foldl St.apply s).reset = true := by
+  induction tr with
+  | nil => intro s h; exact h
+  | cons e t ih => intro s h; exact ih _ (reset_step e h)
+
+theorem late_fold (tr : List Ev) : ∀ s : St, s.late = true → (tr.foldl St.apply s).late = true := by
+  induction tr with
+  | nil => intro s h; exact h
+  | cons e t ih => intro s h; exact ih _ (late_step e h)
+
+theorem flagged_of_bad {s : St} (e : Ev) (hs : s.errSeen = true) (hb : IsAfterErrBad e) :
+    (s.apply e).reset = true ∨ (s.apply e).late = true := by
+  rcases hb with rfl | rfl | rfl | ⟨d, rfl⟩
+  · left; simp [St.apply, hs]
+  · left; simp [St.apply, hs]
+  · left; simp [St.apply, hs]
+  · right; simp [St.apply, hs]
+
+theorem after_error_clean (tr : List Ev) : ∀ s : St, s.errSeen = true →
+    (tr.foldl St.apply s).reset = false → (tr.foldl St.apply s).late = false →
+    ∀ (j : Nat) (e : Ev), tr[j]? = some e → ¬ IsAfterErrBad e := by
+  induction tr with
+  | nil => intro s _ _ _ j e h; simp at h
+  | cons e0 t ih =>
+    intro s hs hr hl j e hj hb
+    cases j with
+    | zero =>
+      simp only [List.getElem?_cons_zero, Option.some.injEq] at hj
+      subst hj
+      rcases flagged_of_bad e0 hs hb with h | h
+      · have := reset_fold t _ h
+        simp only [List.foldl_cons] at hr
+        rw [this] at hr; cases hr
+      · have := late_fold t _ h
+        simp only [List.foldl_cons] at hl
+        rw [this] at hl; cases hl
+    | succ j => exact ih (s.apply e0) (errSeen_step e0 hs) hr hl j e (by simpa using hj) hb
+
+/-- **C09 path property (error monotonicity)**: after `code` has been assigned an error constant or has been
+tested to differ from ERR_OK, the path never assigns ERR_OK or a fresh (call) value to `code`, and never
+writes an output (zeroisation / wiping excepted). -/
+def ErrorSticky (tr : List Ev) : Prop :=
+  ∀ (i j : Nat) (e e' : Ev), i < j → tr[i]? = some e → IsErrMark e → tr[j]? = some e' → ¬ IsAfterErrBad e'
+
+theorem errorSticky_of_fold (tr : List Ev) : ∀ s : St,
+    (tr.foldl St.apply s).reset = false → (tr.foldl St.apply s).late = false → ErrorSticky tr := by
+  unfold ErrorSticky
+  induction tr with
+  | nil => intro s _ _ i j e e' _ h; simp at h
+  | cons e0 t ih =>
+    intro s hr hl i j e e' hij hi hm hj
+    cases j with
+    | zero => omega
+    | succ j =>
+      cases i with
+      | zero =>
+        simp only [List.getElem?_cons_zero, Option.some.injEq] at hi
+        subst hi
+        have hs : (s.apply e0).errSeen = true := by
+          rcases hm with rfl | rfl <;> simp [St.apply]
+        exact after_error_clean t (s.apply e0) hs hr hl j e' (by simpa using hj)
+      | succ i =>
+        exact ih (s.apply e0) hr hl i j e e' (by omega) (by simpa using hi) hm (by simpa using hj)
 
 /-! #### the events of a path are events of the skeleton -/
 
